@@ -2,6 +2,7 @@
 from .common import *
 from .macros import *
 from . import macros as mac
+from . import roles
 
 PER_TARGET = True      # every rule below looks at one target configuration at a time (check.py may fork one worker per target)
 NEEDS_WS = True
@@ -38,7 +39,7 @@ def run_one(ck, tm, tier, ws):
                 arms_reset += 1
                 break
     in_expansion = arms_total > 0 and arms_reset == arms_total
-    roots = [p for p in tm.install_roots() if any("CallCountVerifier" in i["s"] for i in tm.facts.fns[p]["inputs"])]
+    roots = verifier_roots(tm)
     n_paths = install_resets_counter(ck, tm, "R7.1", in_expansion)
     if in_expansion:
         ck.ob("R7.1", "reset-in-expansion", tm.target, True, "all %d `times` arms reset their static before building the verifier" % arms_total)
@@ -68,12 +69,56 @@ def run_one(ck, tm, tier, ws):
     ck.ob("R7.2", "no-other-writer-in-library", tm.target, not bad, "atomic writes in the library: %s" % [(short(a), short(b)) for a, b in writers])
 
 
+def verifier_roots(tm):
+    """Install roots one of whose parameters carries a call-count verifier (type found by role: roles.verifier_types)."""
+    vt = roles.verifier_types(tm.facts)
+    return [p for p in tm.install_roots() if any(roles.mentions_type(i, vt) for i in tm.facts.fns[p]["inputs"])]
+
+
+def verifier_exprs(tm, p, vtypes):
+    """Expressions naming the verifier value(s) among the symbolic arguments of install root p."""
+    m = tm.machines.get((p, None))
+    if m is None:
+        tm.variants(p)
+        m = tm.machines[(p, None)]
+    out = []
+
+    def walk(v, d=0):
+        if d > 6:
+            return
+        if isinstance(v, Opaque) and v.ty and v.ty.get("k") == "adt" and v.ty.get("path") in vtypes:
+            out.append(v.e)
+        elif isinstance(v, Adt):
+            for x in v.fields:
+                walk(x, d + 1)
+        elif isinstance(v, Tup):
+            for x in v.elems:
+                walk(x, d + 1)
+        elif isinstance(v, Ref):
+            try:
+                walk(deref(v), d + 1)
+            except Exception:
+                pass
+    for a in tm.root_args(m, tm.facts.body(p)):
+        walk(a)
+    return out
+
+
+def mentions(e, sub):
+    if not isinstance(e, E):
+        return False
+    if e == sub:
+        return True
+    return any(mentions(a, sub) for a in e.args if isinstance(a, E))
+
+
 def install_resets_counter(ck, tm, rule, in_expansion=False):
     """Library part of R7.1 (also C05 R5.7): every path of an installation entry point that takes a verifier resets the
     verifier's counter before its first effect."""
     n_paths = 0
     ok_all = True
-    roots = [p for p in tm.install_roots() if any("CallCountVerifier" in i["s"] for i in tm.facts.fns[p]["inputs"])]
+    roots = verifier_roots(tm)
+    vtypes = roles.verifier_types(tm.facts)
     ck.floor(rule, "install-entry-points-taking-a-verifier", len(roots), 1)
     for p in roots:
         for f in tm.machines[(p, None)].entered:
@@ -83,15 +128,16 @@ def install_resets_counter(ck, tm, rule, in_expansion=False):
             if not eff and v.status != "returned":
                 continue
             # which verifier variant is this path about?
+            vexprs = verifier_exprs(tm, p, vtypes)
             dv = [d_ for d_ in v.decisions if d_[0].op == "discr" and any(
-                ("CallCountVerifier" in fmt(l, 8) or "fake_pair" in fmt(l, 8) or "verifier" in fmt(l, 8)) for l in deps(v, d_[0])[0] | {d_[0]})]
+                mentions(l, ve) for ve in vexprs for l in deps(v, d_[0])[0] | {d_[0]})]
             stores = [e for e in v.trace if e.kind == "ext" and "atomic::Atomic" in e.name and e.name.split("::")[-1] in ("store", "swap")]
             good = [e for e in stores if isinstance(e.args[1], Int) and e.args[1].is_const() and e.args[1].cval() == 0
                     and (not eff or e.idx < min(x.idx for x in eff))]
             has_counter = None
             for d_ in dv:
                 # CallCountVerifier::WithCount is variant 0 (first declared); read the variant list to be sure
-                adt = [a for pth, a in tm.facts.adts.items() if pth.endswith("CallCountVerifier")]
+                adt = [a for pth, a in tm.facts.adts.items() if pth in vtypes]
                 if adt:
                     names = [x["name"] for x in adt[0]["variants"]]
                     wc = [i for i, vv in enumerate(adt[0]["variants"]) if vv["fields"]]
@@ -107,7 +153,7 @@ def install_resets_counter(ck, tm, rule, in_expansion=False):
             derived = False
             for e in good:
                 lv, strs, callees = deps(v, e.args[0].e) if isinstance(e.args[0], (Opaque, Int)) else (set(), set(), set())
-                if any(l.op == "leaf" for l in lv) or any("fake_pair" in fmt(l) or "verifier" in fmt(l) for l in lv):
+                if any(l.op == "leaf" for l in lv) or any(mentions(l, ve) for ve in vexprs for l in lv):
                     derived = True
             ok = bool(good) and derived
             ok_all = ok_all and ok
